@@ -915,6 +915,9 @@ func (ch *BandCholesky) SymmetricDim() int {
 // Bandwidth returns the lower and upper bandwidth values for the matrix.
 // The total bandwidth of the matrix is kl+ku+1.
 func (ch *BandCholesky) Bandwidth() (kl, ku int) {
+	if ch.chol == nil {
+		return 0, 0
+	}
 	_, k, _ := ch.chol.TriBand()
 	return k, k
 }
@@ -922,6 +925,9 @@ func (ch *BandCholesky) Bandwidth() (kl, ku int) {
 // SymBand returns the number of rows/columns in the matrix, and the size of the
 // bandwidth. The total bandwidth of the matrix is 2*k+1.
 func (ch *BandCholesky) SymBand() (n, k int) {
+	if ch.chol == nil {
+		return 0, 0
+	}
 	n, k, _ = ch.chol.TriBand()
 	return n, k
 }
@@ -930,7 +936,7 @@ func (ch *BandCholesky) SymBand() (n, k int) {
 // receiver for dimensionally restricted operations. The receiver can be emptied
 // using Reset.
 func (ch *BandCholesky) IsEmpty() bool {
-	return ch == nil || ch.chol.IsEmpty()
+	return ch == nil || ch.chol == nil || ch.chol.IsEmpty()
 }
 
 // Det returns the determinant of the matrix that has been factorized.
